@@ -234,6 +234,11 @@ def run(chk, prog):
     gi = Fl.CFG(ian)
     r = gi.every_path_to(Fl.is_call_to("vfps::PhaseSpace::normalize"), Fl.is_call_to("vfps::PhaseSpace::integrate"))
     chk.check(bool(r) and all(ok for _, ok in r), "R3", ian.where, "integrateAndNormalize integrates (fresh filling[n]) before it normalises", "integrateAndNormalize:order")
+    # "after charge renormalisation EACH bunch integrates to its share": the renormalisation entry point normalises on every path; a
+    # shortcut taken when the TOTAL looks right leaves wrong per-bunch shares that cancel in the sum
+    mn_, mx_ = gi.count_on_paths(Fl.is_call_to("vfps::PhaseSpace::normalize"))
+    chk.check(mn_ is not None and mn_ >= 1, "R3", ian.where, "integrateAndNormalize calls normalize() on every path (min %s, max %s calls)" % (mn_, mx_),
+              "integrateAndNormalize:normalizes-on-every-path:%s" % mn_)
 
     # ---- R4 -------------------------------------------------------------------------------------
     ctors = prog.fns("vfps::PhaseSpace::PhaseSpace")
